@@ -53,9 +53,10 @@ def expand_paths(system, paths, check_replay=True):
 class Search:
   """Parent side of the level-synchronous BFS."""
 
-  def __init__(self, ctx, fname, max_depth, cfg=None, chunk=24, max_states=None):
+  def __init__(self, ctx, fname, max_depth, cfg=None, chunk=24, max_states=None, starts=None):
     self.ctx, self.fname, self.max_depth, self.cfg = ctx, fname, max_depth, cfg or {}
     self.chunk, self.max_states = chunk, max_states
+    self.starts = [tuple(p) for p in (starts or [()])]  # non-initial start states (given as paths) are allowed
     self.seen = {}
     self.states = 0
     self.transitions = 0
@@ -68,8 +69,8 @@ class Search:
     self.level_sizes = []
 
   def run(self, init_key_hash=None):
-    frontier = [((), init_key_hash)]
-    self.states = 1
+    frontier = [(p, None) for p in self.starts]
+    self.states = len(frontier)
     depth = 0
     fix_point = False
     new_last = 0
